@@ -56,6 +56,54 @@ DESC = {
               "domain >= 2^12 and a pool size where ceil(2m/t) != 2*ceil(m/t)"),
     "C19-2": ("tau^size computed by a do-while squaring loop: one squaring too many on the size-1 domain",
               "the 2^0 domain and an evaluation point other than 0 or 1 (vanishing, Lagrange, barycentric)"),
+    "C01-3": ("trim degree computed with a 'next power of two strictly greater' bit trick: doubles when constraints + 6 is an exact power of two",
+              "exactly 2^k - 6 constraints and an SRS capacity in [2^k, 2^(k+1))"),
+    "C01-4": ("Prover::try_from_bytes gains a clause rejecting size <= constraints",
+              "a circuit with exactly 2^k constraints and a prover round trip"),
+    "C04-3": ("the verifier accepts over-long public-input vectors (length check weakened to '<', vector sliced)",
+              "a vector whose prefix is the honest one plus extra entries"),
+    "C04-4": ("trailing NUL bytes of the label are stripped before the transcript is created",
+              "two labels differing only by trailing NULs"),
+    "C15-3": ("stale dictionary length between the q_o and q_f look-ups of the compressor",
+              "one gate whose output and fourth selectors are both previously unseen, distinct scalars"),
+    "C15-4": ("scalar section of a compressed description bounded by capacity + 11 instead of capacity x 11",
+              "more distinct non-table selector values than capacity + 11 and an SRS only just large enough"),
+    "C16-3": ("Verifier::try_from_bytes rejects a public-input index on the last constraint row (off by one)",
+              "a circuit whose last gate carries a public input, and a verifier round trip"),
+    "C16-4": ("Prover::try_from_bytes keeps only the first 64 bytes of the label",
+              "a label longer than 64 bytes and a prover round trip"),
+    "C17-3": ("PublicParameters::from_slice length guard '<=' becomes '<': exactly 240 bytes decode to an empty commit key",
+              "an input that is exactly one opening key; compiling with the result panics"),
+    "C17-4": ("Verifier::try_from_bytes allocates Vec::with_capacity(count) before comparing with the available bytes",
+              "a public-input count field of 2^27..2^61 on a short input (huge allocation / capacity overflow panic)"),
+    "C18-3": ("quotient division rewritten block-wise with a block-local index into the eight-entry inverse table",
+              "pool size not a power of two and ceil(8n/T) > 1024 not a multiple of 8 (n >= 2^9 for T = 3, 2^10 for T = 5..7, ...)"),
+    "C18-4": ("label cache keyed by (length, first 32 bytes)",
+              "two labels of equal length > 32 bytes differing after byte 32, in one process"),
+    "C02-3": ("compute_sigma_permutations closes each witness's cycle per chunk of 16 wire positions",
+              "a witness used on more than 16 positions and a prover breaking a copy across blocks"),
+    "C02-4": ("the last domain row is detached from the permutation when the gate count is exactly 2^k",
+              "gate count exactly 2^k and a prover breaking a copy on the last gate's wires"),
+    "C03-3": ("fixed-base widget: x and y accumulator checks share one separation weight on all three sites",
+              "a circuit with fixed-base rows and a witness whose two residuals cancel, or an independent statement of the equation"),
+    "C03-4": ("transcript seed absorbs the variable-base commitment in the q_fixed_group_add slot",
+              "a circuit with curve gates and an independent transcript"),
+    "C05-3": ("unsatisfied-circuit threshold 7n replaced by 8n",
+              "row errors e_i with sum e_i w^i = 0, e.g. two rows half a domain apart violated by the same amount"),
+    "C05-4": ("the permutation accumulator is built from the instance's own wiring instead of the compiled sigma",
+              "an instance wired to other witness indices than the compiled description while all compiled copy constraints hold value-wise"),
+    "C06-3": ("hiding degree of the permutation polynomial capped by the number of unused rows",
+              "gate count 2^k or 2^k - 1 (12 or 13 draws instead of 14)"),
+    "C06-4": ("a draw that reduces to zero is replaced by system randomness",
+              "an RNG stream containing a draw that is 0 mod r"),
+    "C07-3": ("append_evaluated_output returns None (allocates nothing) when the evaluated polynomial is zero and q_O is not +-1",
+              "a general output selector and witness values that make the rest of the polynomial vanish"),
+    "C07-4": ("append_public_point omits the public-input row of a zero coordinate",
+              "a public point with a zero coordinate (identity) in one instance and another point in the other"),
+    "C19-3": ("vanishing polynomial over the coset computed for one 'period' size/degree and repeated",
+              "a degree that does not divide the domain size"),
+    "C19-4": ("Lagrange coefficients scaled through par_chunks_exact_mut: the remainder keeps 1/(tau - w^i)",
+              "a pool size that is not a power of two, tau outside the domain, coefficients near the end"),
 }
 
 
